@@ -1176,8 +1176,8 @@ def main(run):
     nw = 8 if run.tier == "quick" else 16          # shards / seeds (fixed, so results do not depend on procs)
     procs = max(1, min(16, int(os.environ.get("VERIF_PROCS") or 16)))
     stride = _dev_stride()
-    per = run.n(2000, 40000) // stride
-    pers = run.n(250, 5000) // stride
+    per = run.n(1600, 40000) // stride
+    pers = run.n(200, 5000) // stride
     tasks = [("exhaustive", (i, nw, run.tier, run.scratch)) for i in range(nw)]
     tasks += [("random", (common.worker_seed(run.seed, w), per, "json", run.scratch)) for w in range(nw)]
     tasks += [("random", (common.worker_seed(run.seed, 200 + w), pers, "sqlite", run.scratch)) for w in range(nw)]
